@@ -12,21 +12,26 @@ from vlib.core import HARNESS, Infra, ndjson_text
 
 TOK = ('t_stat', 't_remove', 't_create')
 WINDOWS = ['W_BothSawAbsent', 'W_ThreeSawAbsent', 'W_BothSawStale', 'W_ExclLost', 'W_RemovedNew', 'W_RemoveMissing', 'W_StatSeesNew',
-           'W_TwoAcquirers', 'W_ThreeAcquirers', 'W_HolderLostToken', 'W_TwoSidecars', 'W_GoUnderSidecar', 'W_StaleLoserAfterWinner']
+           'W_TwoAcquirers', 'W_ThreeAcquirers', 'W_HolderLostToken', 'W_TwoSidecars', 'W_GoUnderSidecar', 'W_StaleLoserAfterWinner',
+           'W_StatFailed', 'W_RemoveFailed', 'W_CreateFailed', 'W_KilledBeforeRemove', 'W_KilledBeforeCreate', 'W_KilledThenAcquired',
+           'W_GhostCreateLost']
 # windows that only exist with a stale token present (the documented, tolerated race)
-STALE_ONLY = {'W_BothSawStale', 'W_RemovedNew', 'W_RemoveMissing', 'W_TwoAcquirers', 'W_ThreeAcquirers', 'W_HolderLostToken', 'W_StaleLoserAfterWinner'}
+STALE_ONLY = {'W_BothSawStale', 'W_RemovedNew', 'W_RemoveMissing', 'W_TwoAcquirers', 'W_ThreeAcquirers', 'W_HolderLostToken', 'W_StaleLoserAfterWinner',
+              'W_RemoveFailed', 'W_KilledBeforeRemove'}
+GHOST_ONLY = {'W_GhostCreateLost'}
+FAULT_ONLY = {'W_StatFailed', 'W_RemoveFailed', 'W_CreateFailed', 'W_KilledBeforeRemove', 'W_KilledBeforeCreate', 'W_KilledThenAcquired'}
 SAFETY = ['TypeOK', 'NoGrandchild', 'NoChildWhenOff', 'ChildOnlyIfNeeded', 'AtMostOneAcquire', 'HolderKeepsToken', 'OnlyApplicationsAcquire',
-          'SequentialAgreesWithTable']
-KNOWN_OFF_SIG = 'C16:OffIsInert:marker=1:upload=1:wrote=uploaddir:launched=no'
+          'SequentialAgreesWithTable', 'PairAgreesWithTable']
+ALL_TOKENS = ['absent', 'fresh', 'stale', 'ghost']
 
 
 def tset(xs):
     return '{' + ', '.join(('"%s"' % x) if isinstance(x, str) else ('TRUE' if x else 'FALSE') for x in xs) + '}'
 
 
-def proto_cfg(starters, markers, crash, upload, modes, tokens, local, spec='Spec', invariants=(), props=(), deadlock=False):
-    s = ('SPECIFICATION %s\nCONSTANTS\n Starters = %s\n MarkerSet = %s\n CrashSet = %s\n UploadSet = %s\n ModeSet = %s\n TokenSet = %s\n LocalSet = %s\n' % (
-        spec, tset(starters), tset(markers), tset(crash), tset(upload), tset(modes), tset(tokens), tset(local)))
+def proto_cfg(starters, markers, crash, upload, modes, tokens, local, spec='Spec', invariants=(), props=(), deadlock=False, faults=0):
+    s = ('SPECIFICATION %s\nCONSTANTS\n Starters = %s\n MarkerSet = %s\n CrashSet = %s\n UploadSet = %s\n ModeSet = %s\n TokenSet = %s\n LocalSet = %s\n MaxFaults = %d\n' % (
+        spec, tset(starters), tset(markers), tset(crash), tset(upload), tset(modes), tset(tokens), tset(local), faults))
     if invariants:
         s += 'INVARIANTS ' + ' '.join(invariants) + '\n'
     if props:
@@ -35,18 +40,24 @@ def proto_cfg(starters, markers, crash, upload, modes, tokens, local, spec='Spec
     return s
 
 
-def window_module(inits):
+def window_module(inits, faults):
     """MC module with one-shot invariants: the first state of every (window,
     initial token) pair TLC meets is reported as a counter-example, i.e. the
     shortest schedule into the window."""
     lines = ['---- MODULE MCSidecar ----', 'EXTENDS Sidecar',
              'OneShot(i, W) == IF W /\\ TLCGet(i) = 0 THEN TLCSet(i, 1) /\\ FALSE ELSE TRUE',
-             'ASSUME \\A i \\in 1..80 : TLCSet(i, 0)']
+             'ASSUME \\A i \\in 1..120 : TLCSet(i, 0)']
     names = {}
     k = 1
     for w in WINDOWS:
         for tok in inits:
             if w in STALE_ONLY and tok != 'stale':
+                continue
+            if w in GHOST_ONLY and tok != 'ghost':
+                continue
+            if tok == 'ghost' and w not in GHOST_ONLY and w != 'W_BothSawAbsent':
+                continue
+            if w in FAULT_ONLY and not faults:
                 continue
             k += 1
             nm = 'O_%s_%s' % (w[2:], tok)
@@ -57,33 +68,97 @@ def window_module(inits):
 
 
 def token_schedule(states):
-    """The order in which the starters perform their token system calls."""
+    """The order in which the starters perform their token system calls
+    ("fail:<s>": the call is made to fail; "kill:<s>": the starter dies)."""
     out = []
     for a, b in zip(states, states[1:]):
         for pid, pa in a['procs'].items():
             if len(pid) == 1 and pa['pc'] in TOK and pid in b['procs'] and b['procs'][pid]['pc'] != pa['pc']:
-                out.append(pid[0])
+                if b['nf'] > a['nf']:
+                    out.append(('kill:' if b['procs'][pid]['pc'] == 'killed' else 'fail:') + pid[0])
+                else:
+                    out.append(pid[0])
     return out
 
 
-MODE_TEXTS = {'on': ['on 2020-01-01', 'on', 'on 2020-01-01\n', ' on 2023-06-30'],
-              'local': ['local', None, 'local 2021-05-05', 'local\n'],
-              'off': ['off', 'off 2022-02-02', 'off\n']}
-OTHER_MARKERS = ['3', '0', 'true', 'yes', '21', '-1', 'child']
-AGES = {'absent': [0], 'fresh': [3600, 86400 - 180, 5], 'stale': [25 * 3600, 86400 + 180, 30 * 86400]}
+# ---------------------------------------------------------------- concretization
+class Dealer:
+    """Hands out the concrete shapes TLC enumerated (SidecarConcrete.tla), per
+    dimension and class, round robin, so that every shape gets executed."""
+
+    def __init__(self, states, rng):
+        self.pool, self.pos, self.used = {}, {}, set()
+        for st in states:
+            v = dict(st['vec'])
+            v['silent'] = st['silent']
+            self.pool.setdefault((v['dim'], st['class']), []).append(v)
+        for k in sorted(self.pool, key=str):
+            self.pool[k].sort(key=lambda v: json.dumps(v, sort_keys=True))
+            rng.shuffle(self.pool[k])
+            self.pos[k] = 0
+
+    def deal(self, dim, cls, ok=lambda v: True):
+        vs = self.pool[(dim, cls)]
+        for v in vs:        # shapes nobody got yet come first (some fit only a few rows)
+            if (dim, json.dumps(v, sort_keys=True)) not in self.used and ok(v):
+                self.used.add((dim, json.dumps(v, sort_keys=True)))
+                return v
+        for n in range(len(vs)):
+            v = vs[(self.pos[(dim, cls)] + n) % len(vs)]
+            if ok(v):
+                self.pos[(dim, cls)] = (self.pos[(dim, cls)] + n + 1) % len(vs)
+                self.used.add((dim, json.dumps(v, sort_keys=True)))
+                return v
+        return None
+
+    def total(self):
+        return sum(len(v) for v in self.pool.values())
 
 
-def concretize(rid, st, rng, default=False):
-    row, pred = st['row'], st['pred']
-    pick = (lambda xs: xs[0]) if default else (lambda xs: xs[rng.randrange(len(xs))])
+def marker_text(v):
+    return {'none': v['core'], 'trail-space': v['core'] + ' ', 'lead-space': ' ' + v['core'], 'trail-nl': v['core'] + '\n'}[v['pad']]
+
+
+def mode_text(v):
+    return ({'': '', 'space': ' '}[v['lead']] + v['word'] + {'none': '', 'valid': ' 2021-03-04', 'garbage': ' not-a-date'}[v['date']]
+            + {'': '', 'nl': '\n', 'space': ' ', 'crlf': '\r\n', 'tab': '\t'}[v['trail']])
+
+
+def concretize(rid, st, dealer, rng, k):
+    """One executable row for the table state st (row, ext, pred); None if the
+    row cannot be built (a token inside an unusable local directory)."""
+    row, ext, pred = st['row'], st['ext'], st['pred']
+    if not row['localOK'] and row['token'] != 'absent':
+        return None
     marker = row['marker']
-    mset = marker != 'unset' or (not default and rng.random() < 0.3)
-    mtext = {'unset': '', '1': '1', '2': '2', 'other': pick(OTHER_MARKERS)}[marker]
+    dbg = ext['dbg']
+    plain = row['token'] == 'absent' and dbg == 'absent'
+    mv = dealer.deal('marker', marker)
+    tv = dealer.deal('token', row['token'])
+    want_bare = plain and row['mode'] == 'local' and row['localOK'] and k % 7 == 0    # a machine that never ran telemetry
+    modev = dealer.deal('mode', row['mode'], lambda v: (v['kind'] == 'missing') if want_bare else (v['kind'] != 'noconfigdir' or plain))
+    nocfg = modev['kind'] == 'noconfigdir'
+    lv = dealer.deal('local', row['localOK'], lambda v: (v['kind'] == 'exists' or tv['kind'] == 'none') and
+                     (v['kind'] != 'notelemetrydir' or (plain and modev['kind'] == 'missing')) and
+                     (not want_bare or v['kind'] == 'notelemetrydir'))
+    if marker == '1':
+        uv = dealer.deal('upvar', row['upload'])
+        upvar, cfg_upload = uv['text'], rng.random() < 0.5
+    else:
+        upvar, cfg_upload = ('1' if ext['leak'] else 'unset'), row['upload']
     goes = pred['launched'] > pred['sidecars']
-    return dict(id=rid, kind='row', marker=marker, crash=row['crash'], upload=row['upload'], mode=row['mode'], token=row['token'],
-                localOK=row['localOK'], markerText=mtext, markerSet=mset, modeText=pick(MODE_TEXTS[row['mode']]),
-                tokenAge=pick(AGES[row['token']]), unusable=pick(['dangling', 'file']), localPre=(not default and rng.random() < 0.5),
-                useTDir=(not default and rng.random() < 0.3), hold=bool(row['crash'] and goes), n=1)
+    calls = ext['calls']
+    kind = 'row'
+    if calls > 1 and k % 2 == 1 and not (row['crash'] and goes) and not ext['appCrash']:
+        kind = 'seq'          # as many processes, one after the other
+    via = 'xdg' if nocfg else ['xdg', 'home', 'tdir'][k % 3]
+    return dict(id=rid, kind=kind, marker=marker, crash=row['crash'], upload=row['upload'], mode=row['mode'], token=row['token'],
+                localOK=row['localOK'], calls=calls, dbg=dbg, leak=ext['leak'], appCrash=ext['appCrash'],
+                markerText=marker_text(mv), markerSet=mv['set'], modeKind=modev['kind'], modeText=mode_text(modev) if modev['kind'] == 'text' else '',
+                tokenKind=tv['kind'], tokenAge=tv['age'], localKind=lv['kind'], cfgVia=via, fancy=(k % 4 == 3), upvarText=upvar,
+                cfgUpload=cfg_upload, entry=('maybe' if k % 3 == 2 else 'start'), hold=bool(row['crash'] and goes), holdN=pred['launched'] - pred['sidecars'],
+                n=(calls if kind == 'seq' else 1), silent=bool(mv['silent'] or tv['silent'] or modev['silent']),
+                shapes={'marker': mv, 'mode': modev, 'token': tv, 'local': lv})
 
 
 def row_text(x):
@@ -104,20 +179,26 @@ def parse_printed(out, tag):
 
 def run(ctx):
     ctx.assumptions += [
-        'the child marker is read as the exact string: unset or empty = application, "1" = sidecar, "2" = descendant of a sidecar, anything else = other '
-        '(on "other" Start refuses to run: log.Fatalf; recorded as an observation, no clause of the property speaks about it)',
-        'rows with an unusable local directory (a dangling symlink or a regular file in its place) cannot also hold a token file: the 96 rows '
+        'the child marker is read as the exact string: unset or empty = application, "1" = sidecar, "2" = descendant of a sidecar, anything else '
+        '(including "1" or "2" with surrounding white space, "01", "11") = other; on "other" Start refuses to run (log.Fatalf): an observation, '
+        'no clause of the property speaks about it',
+        'rows with an unusable local directory (a dangling symlink or a regular file in its place) cannot also hold a token file: those rows '
         '(localOK = FALSE, token present) are enumerated and checked in the model but not replayed',
         'the "only if" reading: a sidecar that is NOT launched although crash reporting or an acquired token calls for one falsifies no clause; '
         'it is reported as a divergence from the table (warning), not as a violation',
-        'an uploader sidecar launched without an acquired token counts as a launch no token calls for, also when crash reporting is on',
-        'a fresh token stands for one acquisition within the last 24 hours, so acquiring with a fresh token present is a second acquisition',
+        'an uploader sidecar launched without an acquired token counts as a launch no token calls for, also when crash reporting is on; if '
+        'GO_TELEMETRY_CHILD_UPLOAD=1 is already in the application\'s environment it is taken as the documented assertion that an ancestor holds the token',
+        'a fresh token stands for one acquisition within the last 24 hours, so acquiring with a fresh token present is a second acquisition; a token '
+        'whose modification time lies in the future, a mode file with leading white space or a trailing tab are shapes the documentation is silent '
+        'about: a clause failing only there is a divergence (warning), not a violation',
         'processes of the token race are emulated by scheduler tasks calling the real acquireUploadToken on one directory, interleaved at os.Stat / '
-        'os.Remove / os.OpenFile; O_EXCL atomicity is the kernel\'s; two acquirers with a stale token present are outside the property (observation)',
+        'os.Remove / os.OpenFile (which may be made to fail) and killable between them; O_EXCL atomicity is the kernel\'s; two acquirers with a '
+        'stale token present are outside the property (observation)',
         'descendants of a sidecar are observed through a stand-in for the go command (the same logging program installed as "go" first in PATH); '
         'the upload URL is unreachable and the config download fails (offline), so no report is built or sent',
-        'a row is over when the lane process (a child subreaper) has no descendant left; token ages are set relative to the wall clock with at '
-        'least 3 minutes of slack around the 24 h boundary',
+        'a row is over when the lane process (a child subreaper) has no descendant left; token ages are set relative to the wall clock: 20 s '
+        'below and 1 s above the 24 h boundary are the closest shapes',
+        'a debug directory made by the user asks for log files: debug/* written by a launched sidecar or an uploader outside mode off is expected',
     ]
     rng = random.Random(ctx.seed)
     ctx.inject('internal/verifh/c16')
@@ -125,141 +206,172 @@ def run(ctx):
 
     # ------------------------------------------------------------------ TLC
     jobs, meta = [], []
-    jobs.append((('SidecarTable',), dict(dump=True, label='SidecarTable (288 rows)', workers=1)))
+    tcfg_table = ('INIT Init\nNEXT Next\nCONSTANT AllExtras = %s\nINVARIANTS RowOK ChildNeedsApplication UploadImpliesChild OffWritesNothing '
+                  'MarkedWritesNoToken CrashAloneSuffices OneTokenPerSequence\nCHECK_DEADLOCK FALSE\n' % ctx.pick('FALSE', 'TRUE'))
+    jobs.append((('SidecarTable',), dict(dump=True, cfg_text=tcfg_table, label='SidecarTable (rows x circumstances)', workers=1)))
     meta.append('table')
+    jobs.append((('SidecarConcrete',), dict(dump=True, label='SidecarConcrete (shapes)', workers=1)))
+    meta.append('shapes')
     # a single starter, every row: the protocol's quiescent outcome is the table's row
     jobs.append((('Sidecar',), dict(cfg_text=proto_cfg(['s1'], ['unset', '1', '2', 'other'], [True, False], [True, False], ['on', 'local', 'off'],
-                                                       ['absent', 'fresh', 'stale'], [True, False], spec='FairSpec', invariants=SAFETY,
+                                                       ALL_TOKENS, [True, False], spec='FairSpec', invariants=SAFETY,
                                                        props=['Termination']),
                                     label='Sidecar[one starter, all rows]', workers=2)))
     meta.append('one')
     fams = [
-        ('race2', dict(starters=['s1', 's2'], markers=['unset'], crash=[True, False], upload=[True, False], modes=['on', 'local', 'off'],
-                       tokens=['absent', 'fresh', 'stale'], local=[True, False])),
+        ('race2', dict(starters=['s1', 's2'], markers=['unset', '2'], crash=[True, False], upload=[True, False], modes=['on', 'local', 'off'],
+                       tokens=ALL_TOKENS, local=[True, False], faults=0)),
         ('race3', dict(starters=['s1', 's2', 's3'], markers=['unset'], crash=[True, False], upload=[True], modes=['on'],
-                       tokens=['absent', 'fresh', 'stale'], local=[True])),
+                       tokens=ALL_TOKENS, local=[True], faults=0)),
         ('marked2', dict(starters=['s1', 's2'], markers=['unset', '1', '2', 'other'], crash=[True], upload=[True], modes=['on', 'off'],
-                         tokens=['absent', 'stale'], local=[True])),
+                         tokens=['absent', 'stale'], local=[True], faults=0)),
+        # failing system calls and killed starters
+        ('fault2', dict(starters=['s1', 's2'], markers=['unset'], crash=[False], upload=[True], modes=['on'],
+                        tokens=ALL_TOKENS, local=[True], faults=2)),
+        ('fault3', dict(starters=['s1', 's2', 's3'], markers=['unset'], crash=[False], upload=[True], modes=['on'],
+                        tokens=['absent', 'stale'], local=[True], faults=1)),
     ]
     if ctx.thorough():
         fams.append(('race4', dict(starters=['s1', 's2', 's3', 's4'], markers=['unset'], crash=[True, False], upload=[True], modes=['on'],
-                                   tokens=['absent', 'fresh', 'stale'], local=[True])))
+                                   tokens=['absent', 'fresh', 'stale'], local=[True], faults=0)))
         fams.append(('race5', dict(starters=['s1', 's2', 's3', 's4', 's5'], markers=['unset'], crash=[False], upload=[True], modes=['on'],
-                                   tokens=['absent', 'fresh', 'stale'], local=[True])))
+                                   tokens=['absent', 'fresh', 'stale'], local=[True], faults=0)))
         fams.append(('marked3', dict(starters=['s1', 's2', 's3'], markers=['unset', '1', '2'], crash=[True, False], upload=[True], modes=['on'],
-                                     tokens=['absent', 'stale'], local=[True])))
+                                     tokens=['absent', 'stale'], local=[True], faults=0)))
+        fams.append(('fault3b', dict(starters=['s1', 's2', 's3'], markers=['unset'], crash=[False], upload=[True], modes=['on'],
+                                     tokens=ALL_TOKENS, local=[True], faults=3)))
     for name, f in fams:
-        mc, onames = window_module(f['tokens'])
+        mc, onames = window_module(f['tokens'], f['faults'])
         inv = [x for x in SAFETY if x != 'SequentialAgreesWithTable'] + sorted(onames)
         jobs.append((('MCSidecar',), dict(files={'MCSidecar.tla': mc},
                                           cfg_text=proto_cfg(f['starters'], f['markers'], f['crash'], f['upload'], f['modes'], f['tokens'], f['local'],
-                                                             invariants=inv),
+                                                             invariants=inv, faults=f['faults']),
                                           label='Sidecar[%s] exhaustive' % name, workers=ctx.pick(4, 6), extra=['-continue'], timeout=2400)))
         meta.append(('fam', name, f, onames))
     simf = dict(fams)['race3']
-    jobs.append((('Sidecar',), dict(cfg_text=proto_cfg(simf['starters'], simf['markers'], simf['crash'], simf['upload'], simf['modes'], simf['tokens'], simf['local']),
-                                    simulate={'num': ctx.pick(60, 600), 'file': True}, depth=60, label='Sidecar[race3] simulate', count=False)))
-    meta.append('sim')
+    for lab, flt in (('sim', 0), ('simf', 2)):
+        jobs.append((('Sidecar',), dict(cfg_text=proto_cfg(simf['starters'], simf['markers'], simf['crash'], simf['upload'], simf['modes'], simf['tokens'],
+                                                           simf['local'], faults=flt),
+                                        simulate={'num': ctx.pick(40, 400), 'file': True}, depth=60, label='Sidecar[race3] simulate faults=%d' % flt, count=False)))
+        meta.append(lab)
     if ctx.thorough():
         f = dict(fams)['race3']
         jobs.append((('Sidecar',), dict(cfg_text=proto_cfg(f['starters'], f['markers'], f['crash'], f['upload'], f['modes'], f['tokens'], f['local'],
-                                                           spec='FairSpec', props=['Termination']),
+                                                           spec='FairSpec', props=['Termination'], faults=1),
                                         label='Sidecar[race3] liveness', workers=4, timeout=2400)))
         meta.append('live')
-    results = ctx.tlc_many(jobs, par=ctx.pick(5, 6))
+    # the table and the shapes are needed first; the protocol families are model-checked while the table rows run
+    from concurrent.futures import ThreadPoolExecutor
+    first = [i for i, m in enumerate(meta) if m in ('table', 'shapes')]
+    rest = [i for i in range(len(meta)) if i not in first]
+    pool = ThreadPoolExecutor(max_workers=1)
+    fut_rest = pool.submit(ctx.tlc_many, [jobs[i] for i in rest], ctx.pick(6, 6))
+    res_first = ctx.tlc_many([jobs[i] for i in first], par=2)
 
     table_states = None
+    shape_states = None
     race_jobs = []          # jobs of the race harness
     why_of = {}
     next_id = [1]
 
-    def add_sched(n, init, sched, finish, why, age=0):
+    def add_sched(n, init, sched, finish, why, age=0, faults=0.0):
         rid = next_id[0]
         next_id[0] += 1
-        race_jobs.append(dict(kind='sched', id=rid, n=n, init=init, ageSec=age, schedule=sched, finish=finish, seed=rng.randrange(1 << 30), why=why))
+        race_jobs.append(dict(kind='sched', id=rid, n=n, init=init, ageSec=age, schedule=sched, finish=finish, seed=rng.randrange(1 << 30), why=why,
+                              faults=faults))
         why_of[rid] = why
 
+    RACE_AGES = {'absent': [0], 'ghost': [0], 'nodir': [0], 'fresh': [3600, 86400 - 20, 5], 'stale': [25 * 3600, 86400 + 1, 30 * 86400]}
     found = {}
-    for m, r in zip(meta, results):
-        if m == 'table':
-            if not r.ok:
-                raise Infra('SidecarTable: the table itself violates a clause: %s %s\n%s' % (r.error, r.error_name, r.out[-2000:]))
-            table_states = list(tlaval.read_dump(r.dump))
-            model['table_rows'] = len(table_states)
-        elif m == 'one':
-            model['one_starter'] = {'distinct': r.distinct, 'result': r.error or 'ok'}
-            if not r.ok:
-                raise Infra('Sidecar (one starter): the protocol model disagrees with the table or violates %s %s\n%s' % (r.error, r.error_name, r.out[-3000:]))
-        elif m == 'live':
-            model['race3/Termination'] = 'holds' if r.ok else 'VIOLATED in the model: %s' % r.error
-            if not r.ok:
-                ctx.warn('model: liveness: %s' % r.error)
-        elif m == 'sim':
-            if r.error:
-                raise Infra('Sidecar simulate: %s\n%s' % (r.error, r.out[-2000:]))
-            for fn in ctx.sim_files(r):
-                sts = [s for (_a, _b, s) in tlaval.read_simulate(fn)]
-                if not sts:
-                    continue
-                sched = token_schedule(sts)
-                if sched:
-                    add_sched(3, sts[0]['initToken'], sched, 'rr', 'simulate')
-        else:
-            _, name, f, onames = m
-            model[name] = {'distinct': r.distinct, 'generated': r.generated}
-            if r.error in ('action', 'temporal', 'deadlock'):
-                raise Infra('Sidecar[%s]: %s\n%s' % (name, r.error, r.out[-2000:]))
-            for (inv, tr) in tlaval.read_all_traces(r.out):
-                if inv not in onames:
-                    # an invariant of the protocol model is false on the model itself
-                    raise Infra('Sidecar[%s]: the protocol model violates %s\n%s' % (name, inv, r.out[-3000:]))
-                w, tok = onames[inv]
-                sts = [s for (_a, s) in tr]
-                sched = token_schedule(sts)
-                key = (w, tok, len(f['starters']))
-                if key in found:
-                    continue
-                found[key] = len(sched)
-                model['%s/%s/%s' % (name, w, tok)] = 'reachable (%d token steps)' % len(sched)
-                if sched:
-                    for fin in ('stick', 'rr', 'random', 'random'):
-                        add_sched(len(f['starters']), tok, sched, fin, '%s[%s]' % (w, tok), age=rng.choice(AGES[tok]))
-    # windows the check relies on must be reachable in the model (non-vacuity of the race part)
-    for w, tok in [('W_BothSawAbsent', 'absent'), ('W_ExclLost', 'absent'), ('W_StatSeesNew', 'absent'), ('W_TwoAcquirers', 'stale'),
-                   ('W_RemovedNew', 'stale'), ('W_GoUnderSidecar', 'absent'), ('W_ThreeSawAbsent', 'absent')]:
-        if not any(k[0] == w and k[1] == tok for k in found):
-            raise Infra('race window %s[%s] was not reached in the model' % (w, tok))
-    # a stale-only window reached without a stale token would mean the model admits the race the property forbids
-    ctx.cov['windows_reached'] = len(found)
+
+    def digest(pairs):
+      nonlocal table_states, shape_states
+      for m, r in pairs:
+          if m == 'table':
+              if not r.ok:
+                  raise Infra('SidecarTable: the table itself violates a clause: %s %s\n%s' % (r.error, r.error_name, r.out[-2000:]))
+              table_states = list(tlaval.read_dump(r.dump))
+              model['table_states'] = len(table_states)
+          elif m == 'shapes':
+              if not r.ok:
+                  raise Infra('SidecarConcrete: %s %s\n%s' % (r.error, r.error_name, r.out[-2000:]))
+              shape_states = list(tlaval.read_dump(r.dump))
+              model['shapes'] = len(shape_states)
+          elif m == 'one':
+              model['one_starter'] = {'distinct': r.distinct, 'result': r.error or 'ok'}
+              if not r.ok:
+                  raise Infra('Sidecar (one starter): the protocol model disagrees with the table or violates %s %s\n%s' % (r.error, r.error_name, r.out[-3000:]))
+          elif m == 'live':
+              model['race3/Termination'] = 'holds' if r.ok else 'VIOLATED in the model: %s' % r.error
+              if not r.ok:
+                  ctx.warn('model: liveness: %s' % r.error)
+          elif m in ('sim', 'simf'):
+              if r.error:
+                  raise Infra('Sidecar simulate: %s\n%s' % (r.error, r.out[-2000:]))
+              for fn in ctx.sim_files(r):
+                  sts = [s for (_a, _b, s) in tlaval.read_simulate(fn)]
+                  if not sts:
+                      continue
+                  sched = token_schedule(sts)
+                  if sched:
+                      add_sched(3, sts[0]['initToken'], sched, 'rr', 'simulate')
+          else:
+              _, name, f, onames = m
+              model[name] = {'distinct': r.distinct, 'generated': r.generated}
+              if r.error in ('action', 'temporal', 'deadlock'):
+                  raise Infra('Sidecar[%s]: %s\n%s' % (name, r.error, r.out[-2000:]))
+              for (inv, tr) in tlaval.read_all_traces(r.out):
+                  if inv not in onames:
+                      # an invariant of the protocol model is false on the model itself
+                      raise Infra('Sidecar[%s]: the protocol model violates %s\n%s' % (name, inv, r.out[-3000:]))
+                  w, tok = onames[inv]
+                  sts = [s for (_a, s) in tr]
+                  sched = token_schedule(sts)
+                  key = (w, tok, len(f['starters']), f['faults'] > 0)
+                  if key in found:
+                      continue
+                  found[key] = len(sched)
+                  model['%s/%s/%s' % (name, w, tok)] = 'reachable (%d token steps)' % len(sched)
+                  if sched:
+                      for fin in ('stick', 'rr', 'random', 'random'):
+                          add_sched(len(f['starters']), tok, sched, fin, '%s[%s]' % (w, tok), age=rng.choice(RACE_AGES[tok]))
+    digest([(meta[i], r) for i, r in zip(first, res_first)])
 
     # ---------------------------------------------- decision table: model -> code
+    dealer = Dealer(shape_states, rng)
     rows, skipped = [], 0
     rid = 0
     bystate = {}
-    for st in table_states:
-        if not st['row']['localOK'] and st['row']['token'] != 'absent':
-            skipped += 1
-            continue
-        rid += 1
-        rows.append(concretize(rid, st, rng, default=True))
-        bystate[rid] = st
-    base = len(rows)
-    for sweep in range(ctx.pick(1, 20)):
-        for st in table_states:
-            if not st['row']['localOK'] and st['row']['token'] != 'absent':
+    table_states.sort(key=lambda st: json.dumps([st['row'], st['ext']], sort_keys=True))
+    for sweep in range(ctx.pick(1, 3)):
+        order_states = list(table_states)
+        if sweep:
+            rng.shuffle(order_states)
+        for k, st in enumerate(order_states):
+            x = concretize(rid + 1, st, dealer, rng, k + sweep)
+            if x is None:
+                skipped += sweep == 0
                 continue
             rid += 1
-            rows.append(concretize(rid, st, rng))
+            rows.append(x)
             bystate[rid] = st
     # several real processes started at once
-    for tok in ('absent', 'fresh', 'stale'):
-        for k in range(ctx.pick(3, 30)):
+    for tok in ALL_TOKENS:
+        for k in range(ctx.pick(3, 20)):
             rid += 1
-            rows.append(dict(id=rid, kind='race', marker='unset', crash=False, upload=True, mode='on', token=tok, localOK=True, markerText='',
-                             markerSet=False, modeText='on 2020-01-01', tokenAge=rng.choice(AGES[tok]), unusable='dangling', localPre=True,
-                             useTDir=False, hold=False, n=ctx.pick(6, 10)))
-    ctx.log('table rows to replay: %d (%d base, %d skipped as not concretizable)' % (len(rows), base, skipped))
-    recs, rc, out = ctx.run_harness('./internal/verifh/c16', 'TestVerifC16Table', inp={'rows': rows, 'lanes': 8}, timeout=1500)
+            tv = dealer.deal('token', tok, lambda v: not v['silent'])
+            rows.append(dict(id=rid, kind='race', marker='unset', crash=False, upload=True, mode='on', token=tok, localOK=True, calls=1, dbg='absent',
+                             leak=False, appCrash=False, markerText='', markerSet=False, modeKind='text', modeText='on 2020-01-01',
+                             tokenKind=tv['kind'], tokenAge=tv['age'], localKind='exists', cfgVia='xdg', fancy=False, upvarText='unset', cfgUpload=True,
+                             entry='start', hold=False, n=ctx.pick(6, 10), silent=False, shapes={'token': tv}))
+    unused = dealer.total() - len(dealer.used)
+    ctx.cov['shapes_enumerated'] = dealer.total()
+    ctx.cov['shapes_executed'] = len(dealer.used)
+    if unused:
+        left = [json.dumps(v, sort_keys=True) for vs in dealer.pool.values() for v in vs if (v['dim'], json.dumps(v, sort_keys=True)) not in dealer.used]
+        ctx.warn('%d of %d concrete shapes were not dealt to any row: %s' % (unused, dealer.total(), left[:4]))
+    ctx.log('table rows to replay: %d (%d table states, %d not concretizable)' % (len(rows), len(table_states), skipped))
+    recs, rc, out = ctx.run_harness('./internal/verifh/c16', 'TestVerifC16Table', inp={'rows': rows, 'lanes': 8}, timeout=2400)
     got = {r['id']: r for r in recs}
     if len(got) != len(rows):
         raise Infra('C16 table harness returned %d results for %d rows\n%s' % (len(got), len(rows), out[-3000:]))
@@ -270,12 +382,14 @@ def run(ctx):
             raise Infra('row %d: %d of %d started processes logged their start\n%s' % (x['id'], o['rootsLogged'], o['n'], json.dumps(o)[:1500]))
         if o['timedOut']:
             ctx.warn('row %d (%s): processes still alive after 20 s were killed' % (x['id'], row_text(x)))
-        lines.append({k: o[k] for k in ('kind', 'id', 'marker', 'crash', 'upload', 'mode', 'token', 'localOK', 'sidecars', 'uploaders', 'nested',
-                                        'launched', 'acquired', 'wrote', 'fatal')})
+        y = {k: o[k] for k in ('kind', 'id', 'marker', 'crash', 'upload', 'mode', 'token', 'localOK', 'sidecars', 'uploaders', 'nested',
+                               'launched', 'acquired', 'wrote', 'fatal')}
+        y.update({k: x[k] for k in ('calls', 'dbg', 'leak', 'appCrash')})
+        lines.append(y)
         order.append(x)
     ctx.cov['evaluations'] += len(lines)
     ctx.cov['rows_replayed'] = len(lines)
-    ctx.cov['rows_not_concretizable'] = skipped
+    ctx.cov['table_states_not_concretizable'] = skipped
     ctx.cov['processes_observed'] = sum(o['processes'] for o in got.values())
     r = ctx.tlc('SidecarRows', files={'c16rows.ndjson': ndjson_text(lines)}, workers=1, label='SidecarRows', count=False, timeout=1500)
     v = parse_printed(r.out, 'C16ROWS')
@@ -283,22 +397,34 @@ def run(ctx):
         raise Infra('SidecarRows: no verdict\n' + r.out[-2500:])
     bad, diverged = v[1], set(v[2])
     badidx = set()
+    nsilent = 0
+    b01 = lambda b: '1' if b else '0'
     for (idx, clause) in sorted(tuple(b) for b in bad):
         x, o = order[idx - 1], got[order[idx - 1]['id']]
+        text = ('row %d (%s; kind=%s n=%d calls=%d dbg=%s leak=%s appCrash=%s; marker %r, mode file %s %r, token %s age %d s, local %s, via %s, entry %s): '
+                '%s is false on the real processes: sidecars=%d uploaders=%d nested=%d launched=%d acquired=%s wrote=%s; changed: %s; process log: %s' % (
+                    x['id'], row_text(x), x['kind'], o['n'], x['calls'], x['dbg'], x['leak'], x['appCrash'], x['markerText'] if x['markerSet'] else None,
+                    x['modeKind'], x['modeText'], x['tokenKind'], x['tokenAge'], x['localKind'], x['cfgVia'], x['entry'], clause,
+                    o['sidecars'], o['uploaders'], o['nested'], o['launched'], o['acquired'], o['wrote'], (o['changed'] or [])[:8],
+                    json.dumps([(e['pid'], e['lineage'], e['marker'], e['upvar'], e['role']) for e in (o['entries'] or [])][:8])))
+        if x['silent']:
+            # a shape the documentation says nothing about: not a violation
+            nsilent += 1
+            if nsilent <= 5:
+                ctx.warn('MODEL-DIVERGENCE (undocumented shape) ' + text[:900])
+            continue
         badidx.add(idx)
-        b01 = lambda b: '1' if b else '0'
         if clause == 'OffIsInert':
             sig = 'C16:OffIsInert:marker=%s:upload=%s:wrote=%s:launched=%s' % (x['marker'], b01(x['upload']), '+'.join(o['wrote']) or 'nothing',
                                                                                'yes' if o['launched'] else 'no')
-        elif clause == 'RaceAtMostOne':
-            sig = 'C16:RaceAtMostOne:token=%s' % x['token']
+        elif x['kind'] == 'race':
+            sig = 'C16:%s:race:token=%s' % (clause, x['token'])
         else:
             sig = 'C16:%s:marker=%s:mode=%s:crash=%s:upload=%s:token=%s' % (clause, x['marker'], x['mode'], b01(x['crash']), b01(x['upload']), x['token'])
-        ctx.violation(sig, {'row': x, 'observed': o},
-                      'row %d (%s, n=%d): %s is false on the real processes: sidecars=%d uploaders=%d nested=%d launched=%d acquired=%s wrote=%s; changed: %s; process log: %s' % (
-                          x['id'], row_text(x), o['n'], clause, o['sidecars'], o['uploaders'], o['nested'], o['launched'], o['acquired'], o['wrote'],
-                          (o['changed'] or [])[:8], json.dumps([(e['pid'], e['lineage'], e['marker'], e['upvar'], e['role']) for e in (o['entries'] or [])][:8])))
-    ndiv = 0
+            if x['calls'] > 1 or x['leak'] or x['dbg'] != 'absent' or x['appCrash']:
+                sig += ':calls=%d:dbg=%s:leak=%s:appCrash=%s' % (x['calls'], x['dbg'], b01(x['leak']), b01(x['appCrash']))
+        ctx.violation(sig, {'row': x, 'observed': o}, text)
+    ndiv = nsilent
     for idx in sorted(diverged):
         if idx in badidx:
             continue
@@ -306,19 +432,36 @@ def run(ctx):
         ndiv += 1
         if ndiv <= 8:
             st = bystate.get(x['id'])
-            ctx.warn('MODEL-DIVERGENCE row %d (%s): observed sidecars=%d uploaders=%d launched=%d acquired=%s wrote=%s fatal=%s, table says %s' % (
-                x['id'], row_text(x), o['sidecars'], o['uploaders'], o['launched'], o['acquired'], o['wrote'], o['fatal'],
-                json.dumps(st['pred'], default=list) if st else '(race)'))
+            ctx.warn('MODEL-DIVERGENCE row %d (%s; kind=%s calls=%d dbg=%s leak=%s appCrash=%s; marker %r, mode file %s %r, token %s age %d, local %s, via %s, entry %s): '
+                     'observed sidecars=%d uploaders=%d launched=%d acquired=%s wrote=%s fatal=%s changed=%s, table says %s' % (
+                         x['id'], row_text(x), x['kind'], x['calls'], x['dbg'], x['leak'], x['appCrash'], x['markerText'] if x['markerSet'] else None,
+                         x['modeKind'], x['modeText'], x['tokenKind'], x['tokenAge'], x['localKind'], x['cfgVia'], x['entry'],
+                         o['sidecars'], o['uploaders'], o['launched'], o['acquired'], o['wrote'], o['fatal'], (o['changed'] or [])[:6],
+                         json.dumps(st['pred'], default=list) if st else '(race)'))
     ctx.cov['divergences'] += ndiv
     ctx.cov['traces_validated_against_impl'] += len(lines) - len(diverged | badidx)
-    fatal_rows = [x['id'] for x in order if got[x['id']]['fatal']]
-    ctx.cov['observations'] = {'start_refuses_other_marker(log.Fatalf)': len(fatal_rows)}
+    fatal_rows = [x['id'] for x in order if got[x['id']]['fatal'] and x['marker'] == 'other']
+    ctx.cov['observations'] = {'start_refuses_other_marker(log.Fatalf)': len(fatal_rows),
+                               'uploader_sidecar_in_mode_off_writes_debug_log(user-made debug directory)':
+                                   sum(1 for x in order if x['mode'] == 'off' and 'debuglog' in got[x['id']]['wrote'])}
     smp = next((x for x in order if got[x['id']]['launched'] >= 2), order[0])
-    ctx.sample({'kind': 'row', 'row': {k: smp[k] for k in ('marker', 'crash', 'upload', 'mode', 'token', 'localOK', 'markerText', 'modeText', 'tokenAge')},
+    ctx.sample({'kind': 'row', 'row': {k: smp[k] for k in ('marker', 'crash', 'upload', 'mode', 'token', 'localOK', 'calls', 'dbg', 'leak', 'appCrash',
+                                                           'markerText', 'modeKind', 'modeText', 'tokenKind', 'tokenAge', 'localKind', 'cfgVia', 'entry')},
                 'observed': {k: got[smp['id']][k] for k in ('sidecars', 'uploaders', 'nested', 'launched', 'acquired', 'wrote')},
                 'process_log': [(e['lineage'], e['marker'], e['upvar'], e['role'], e['args']) for e in got[smp['id']]['entries']]})
 
     # ------------------------------------------------- token race: real code
+    digest([(meta[i], r) for i, r in zip(rest, fut_rest.result())])
+    pool.shutdown()
+    # windows the check relies on must be reachable in the model (non-vacuity of the race part)
+    for w, tok in [('W_BothSawAbsent', 'absent'), ('W_ExclLost', 'absent'), ('W_StatSeesNew', 'absent'), ('W_TwoAcquirers', 'stale'),
+                   ('W_RemovedNew', 'stale'), ('W_GoUnderSidecar', 'absent'), ('W_ThreeSawAbsent', 'absent'), ('W_GhostCreateLost', 'ghost'),
+                   ('W_StatFailed', 'absent'), ('W_CreateFailed', 'absent'), ('W_RemoveFailed', 'stale'), ('W_KilledBeforeCreate', 'absent'),
+                   ('W_KilledThenAcquired', 'absent')]:
+        if not any(k[0] == w and k[1] == tok for k in found):
+            raise Infra('race window %s[%s] was not reached in the model' % (w, tok))
+    ctx.cov['windows_reached'] = len(found)
+
     root = ctx.scratch_repo()
     shutil.copy(os.path.join(HARNESS, 'inject', 'start_c16_verif_test.go'), os.path.join(root, 'start_c16_verif_test.go'))
     ctx.instrument('-files', '.')
@@ -327,15 +470,17 @@ def run(ctx):
         if shim not in src:
             raise Infra('the instrumenter did not expose %s in start.go' % shim)
     starters_all = ['s1', 's2', 's3', 's4', 's5']
-    for tok in ('absent', 'fresh', 'stale'):
+    for tok in ALL_TOKENS + ['nodir']:
         for n in (2, 3):
             race_jobs.append(dict(kind='dfs', id=next_id[0], n=n, init=tok, ageSec=0, max=ctx.pick(1500, 0), why='dfs'))
             next_id[0] += 5000
-        if ctx.thorough():
+        if ctx.thorough() and tok != 'nodir':
             race_jobs.append(dict(kind='dfs', id=next_id[0], n=4, init=tok, ageSec=0, max=8000, why='dfs'))
             next_id[0] += 10000
-        for k in range(ctx.pick(40, 1500)):
-            add_sched(rng.choice([2, 3, 3, 4, 5]), tok, [], 'random', 'random', age=rng.choice(AGES[tok]))
+        for k in range(ctx.pick(40, 1000)):
+            add_sched(rng.choice([2, 3, 3, 4, 5]), tok, [], 'random', 'random', age=rng.choice(RACE_AGES[tok]))
+        for k in range(ctx.pick(40, 1000)):
+            add_sched(rng.choice([2, 3, 3, 4, 5]), tok, [], 'random', 'random-faults', age=rng.choice(RACE_AGES[tok]), faults=0.25)
         add_sched(3, tok, [], 'rr', 'rr')
         add_sched(3, tok, [], 'stick', 'seq')
     recs, rc, out = ctx.run_harness('.', 'TestVerifC16Race', inp={'jobs': race_jobs}, timeout=2400)
@@ -349,26 +494,32 @@ def run(ctx):
         raise Infra('C16 race harness: missing results\n' + out[-3000:])
     ctx.cov['race_runs'] = len(res)
     ctx.cov['race_dfs'] = [{k: d[k] for k in ('n', 'init', 'runs', 'complete')} for d in dfs]
+    ctx.cov['race_runs_with_faults_or_kills'] = sum(1 for x in res.values() if any(e.startswith(('fail:', 'kill:')) for e in x['schedule']))
     ctx.cov['evaluations'] += len(res)
     ctx.cov['real_steps'] = sum(x['steps'] for x in res.values())
     for k, x in sorted(res.items()):
         if x['status'] != 'ok':
             ctx.violation('C16:race:%s:%s' % (x['status'], (x.get('fault') or {}).get('op', '')), {'run': x},
-                          'token race run %d (%s, n=%d, init=%s): %s %s; schedule %s' % (k, x.get('why'), x['n'], x['init'], x['status'], json.dumps(x.get('fault')), x['schedule']))
+                          'token race run %d (%s, n=%d, init=%s): %s %s; schedule %s' % (k, x.get('why'), x['n'], x['initKind'], x['status'], json.dumps(x.get('fault')), x['schedule']))
+        elif x['initKind'] == 'nodir' and x['acquired']:
+            ctx.violation('C16:race:acquired-without-directory', {'run': x},
+                          'token race run %d: the telemetry directory is unknown (os.UserConfigDir failed) and %s acquired a token' % (k, x['acquired']))
     tl, first_of = [], {}
     for k in sorted(obs):
-        if res.get(k, {}).get('status') != 'ok':
+        if res.get(k, {}).get('status') != 'ok' or res[k]['initKind'] == 'nodir':
             continue
         first_of[k] = len(tl)
         for o in obs[k]:
-            y = {f: o[f] for f in ('run', 'i', 't', 'token', 'next', 'acq')}
+            y = {f: o[f] for f in ('run', 'i', 't', 'token', 'next', 'acq', 'fault')}
             if o['t'] == 'init':
                 y['init'], y['starters'] = o['init'], o['starters']
+            if o['t'] == 'kill':
+                y['victim'] = o['victim']
             tl.append(y)
         tl[first_of[k]]['last'] = len(tl)
     runs_in = sorted(first_of)
-    tcfg = proto_cfg(starters_all, ['unset'], [False], [True], ['on'], ['absent', 'fresh', 'stale'], [True], spec='TSpec',
-                     invariants=['Conform', 'AtMostOneAcquire'], deadlock=True)
+    tcfg = proto_cfg(starters_all, ['unset'], [False], [True], ['on'], ALL_TOKENS, [True], spec='TSpec',
+                     invariants=['Conform', 'AtMostOneAcquire'], deadlock=True, faults=99)
     accepted, diverged_runs = 0, []
     remaining = list(runs_in)
     verdict_done = False
@@ -424,9 +575,9 @@ def run(ctx):
         seg[0]['last'] = len(demo) + len(seg)
         demo += seg
     victims = [i for i, y in enumerate(demo) if y['t'] != 'init']
-    if victims:
+    if victims and ctx.thorough():
         i = victims[len(victims) // 2]
-        demo[i] = dict(demo[i], token={'absent': 'fresh', 'fresh': 'absent', 'stale': 'absent'}[demo[i]['token']])
+        demo[i] = dict(demo[i], token={'absent': 'fresh', 'fresh': 'absent', 'stale': 'absent', 'ghost': 'absent'}[demo[i]['token']])
         r = ctx.tlc('SidecarTrace', files={'c16trace.ndjson': ndjson_text(demo)}, cfg_text=tcfg, workers=1, label='SidecarTrace[binding demo]',
                     count=False, timeout=600)
         ctx.cov['binding_demo'] = 'corrupted token state at line %d: %s' % (i + 1, 'rejected (%s %s)' % (r.error, r.error_name) if r.error else 'ACCEPTED')
@@ -439,11 +590,12 @@ def run(ctx):
     ctx.sample({'kind': 'race', 'why': res[k0].get('why'), 'n': res[k0]['n'], 'init': res[k0]['init'], 'schedule': res[k0]['schedule'],
                 'acquired': res[k0]['acquired']})
     ctx.cov['model_results'] = model
-    ctx.cov['distinct_nontrivial'] = len({(x['n'], x['init'], tuple(x['schedule'])) for x in res.values()}) + len({
-        (x['marker'], x['crash'], x['upload'], x['mode'], x['token'], x['localOK'], x['markerText'], x['modeText'], x['tokenAge'], x['unusable'],
-         x['localPre'], x['useTDir']) for x in rows})
-    ctx.cov['rule'] = ('a table case is one row of SidecarTable.tla concretized (marker text, mode file text, token age, kind of unusable local '
-                       'directory, TelemetryDir vs XDG) and executed as real processes with the process-start log and directory snapshots abstracted '
-                       'and judged by TLC (SidecarRows); a race case is one interleaving of 2-5 starters on the real acquireUploadToken (TLC witness '
-                       'schedules into race windows, simulate walks, exhaustive DFS of all interleavings for 2 and 3 starters, random orders), each '
-                       'recorded trace validated step by step against Sidecar.tla')
+    ctx.cov['distinct_nontrivial'] = len({(x['n'], x['initKind'], tuple(x['schedule'])) for x in res.values()}) + len({
+        json.dumps({k: v for k, v in x.items() if k not in ('id', 'hold')}, sort_keys=True) for x in rows})
+    ctx.cov['rule'] = ('a table case is one state of SidecarTable.tla (row x circumstances: starts in sequence, debug directory, upload flag in the '
+                       'environment, application crash) concretized with shapes enumerated by SidecarConcrete.tla (marker strings, mode file '
+                       'texts/kinds, token kind and age around the 24 h boundary, local directory kinds, HOME/XDG/TelemetryDir, odd path names, '
+                       'MaybeChild entry) and executed as real processes, the process-start log and directory snapshots abstracted and judged by '
+                       'TLC (SidecarRows); a race case is one interleaving of 2-5 starters on the real acquireUploadToken with failing calls and '
+                       'kills (TLC witness schedules into race windows, simulate walks, exhaustive DFS of all fault-free interleavings for 2 and 3 '
+                       'starters, random orders), each recorded trace validated step by step against Sidecar.tla')
